@@ -134,6 +134,9 @@ func handle(point string, ids ...string) {
 	}
 	mu.RLock()
 	g := gates[key{point, id}]
+	if g == nil && len(ids) > 1 {
+		g = gates[key{point, ids[0] + "\x00" + ids[1]}] // a gate for one (id, second id) pair: Park2
+	}
 	mu.RUnlock()
 	if g != nil {
 		atomic.AddInt32(&g.arrivals, 1)
@@ -171,6 +174,9 @@ func Park(point, id string) *Gate {
 	mu.Unlock()
 	return g
 }
+
+// Park2 installs a gate at a point for the goroutine whose first TWO hook ids are id0, id1 (e.g. message and subscription).
+func Park2(point, id0, id1 string) *Gate { return Park(point, id0+"\x00"+id1) }
 
 // Arrived waits until some goroutine is parked at the gate.
 func (g *Gate) Arrived(d time.Duration) bool {
